@@ -48,6 +48,9 @@ func main() {
 	if os.Args[1] == "c11-race" {
 		os.Exit(checks.C11Race(os.Args[2:]))
 	}
+	if os.Args[1] == "c03-file-child" {
+		os.Exit(checks.C03FileChild(os.Args[2:]))
+	}
 	if os.Args[1] == "c17-child" {
 		os.Exit(checks.C17Child(os.Args[2:]))
 	}
